@@ -76,8 +76,8 @@ func (w *worker) run(ctx context.Context, timeout time.Duration, resultCh chan<-
 
 	for curr := w.state.from; curr <= w.state.to; curr++ {
 		err := w.sample(ctx, timeout, curr)
-		if errors.Is(err, context.Canceled) {
-			// sampling worker will resume upon restart
+		if errors.Is(err, context.Canceled) && ctx.Err() != nil {
+			// the DASer is stopping: sampling worker will resume upon restart
 			return
 		}
 		if errors.Is(err, availability.ErrOutsideSamplingWindow) {
